@@ -69,7 +69,13 @@ def check_record(args):
                 T.build(inp, ground, conc)
                 out['mism'].append('accepted-but-spec-rejects')
             except ValueError:
-                pass
+                if rec.get('assertion'):
+                    out['mism'].append('diagnosed-but-spec-says-assertion')
+            except AssertionError:
+                # the faithful specification predicts this AssertionError (closed curve ending on a
+                # point where an earlier object ends); the property is violated all the same
+                out['mism'].append('assertion-closed-curve-on-earlier-end' if rec.get('assertion')
+                                   else 'assertion-unexpected')
             return out
         m = T.build(inp, ground, conc)
     except Exception as e:           # noqa
@@ -165,6 +171,8 @@ def jobs(chk, tier):
     sd = C.seed()
     for r, g, cfg in T.records(chk, tier, INVS):
         yield (r, g, 'exact', sd)
+        if r.get('reject') and not r.get('assertion'):
+            continue
         if not r.get('reject'):
             yield (r, g, 'jitter', sd)
             if len(r['input']) >= 2:
